@@ -301,7 +301,11 @@ def drv_hedger(ctx, k, rng):
     scale = (a.abs() + b.abs() + pay.abs()).to(F64)
     diff = (a.to(F64) - (b.to(F64) - pay.to(F64))).abs()
     uses_empty = any(str(f) == "empty" for f in hedger.inputs.features if hasattr(f, "name"))
-    ok = bool((diff <= 64 * e * scale + 1e-300).all())
+    fin = torch.isfinite(a) & torch.isfinite(b)
+    if not bool(fin.all()):
+        # non-finite hedges (Black-Scholes Greeks at exactly zero volatility) are the subject of C18, not of the identity
+        ctx.skipped("hedger.pl_minus_portfolio", "non_finite_hedge_see_C18")
+    ok = bool((diff[fin] <= (64 * e * scale + 1e-300)[fin]).all()) and bool((torch.isnan(a) == torch.isnan(b)).all())
     ctx.check("hedger.pl_minus_portfolio", ok, "pl_vs_portfolio",
               "compute_pl != compute_portfolio - payoff", sig=(desc["derivative"], desc["hedge"], desc["model"]),
               desc=desc, pl=a, portfolio=b, payoff=pay)
